@@ -19,6 +19,7 @@ def dispatch (j : Json) : R Json := do
   | "start_end" => handleStartEnd j
   | "high_low" => handleHighLow j
   | "ellipse" => handleEllipse j
+  | "density" => handleDensity j
   | "ping" => pure (Json.mkObj [("pong", Json.bool true)])
   | _ => throw s!"unknown op {op}"
 
